@@ -2,6 +2,8 @@ package props
 
 import (
 	"fmt"
+	cmtproto "github.com/cometbft/cometbft/proto/tendermint/types"
+	keeperutil "github.com/palomachain/paloma/v2/util/keeper"
 	"math/big"
 	"strconv"
 	"strings"
@@ -54,7 +56,7 @@ func c15(r *core.Run) []*core.Violation {
 	cfg.NVals = 1
 	cfg.NUsers = 4
 	cfg.VotingPeriod = 0
-	cfg.InitialHeight = []int64{1, 57_590, 115_190, 1_000_003}[t.Intn(4)]
+	cfg.InitialHeight = []int64{1, 57_590, 115_190, 1_000_003, 2_000_003, 2_000_003}[t.Intn(6)]
 	cfg.RestartPerMille = 8
 	cfg.CrashPerMille = 8
 	b := NewBridge(r, cfg)
@@ -250,8 +252,41 @@ func c15(r *core.Run) []*core.Violation {
 				}
 			}
 		}
+		// age an open usage window: the same window, begun earlier (its total unchanged), so that window boundaries of every
+		// period are reached without producing 57 600 .. 1 728 000 blocks. The record is written with the keeper's own
+		// encoding into the working state; the following block is produced without a crash point so that it is committed.
+		savedCrash := b.Sim.Cfg.CrashPerMille
+		if !long && t.Chance(1, 12) {
+			d := denoms[t.Intn(len(denoms))]
+			m := model[d]
+			if m.limitSet && m.hasWin && m.period != skywaytypes.LimitPeriod_NONE {
+				P := c15Period[m.period]
+				offs := []int64{P - 12, P - 2, P + 3, P / 2}
+				switch m.period {
+				case skywaytypes.LimitPeriod_MONTHLY:
+					offs = append(offs, 57_600*7+5, 57_600*7-5, 57_600+5)
+				case skywaytypes.LimitPeriod_WEEKLY:
+					offs = append(offs, 57_600+5, 57_600*30-7)
+				case skywaytypes.LimitPeriod_DAILY:
+					offs = append(offs, 57_600*7-9)
+				}
+				off := offs[t.Intn(len(offs))]
+				if start := b.N.Height - off; start > 0 && start < m.start {
+					uctx := b.N.App.BaseApp.NewUncachedContext(false, cmtproto.Header{Height: b.N.Height, ChainID: b.N.ChainID})
+					st := b.N.App.SkywayKeeper.GetStore(uctx, skywaytypes.BridgeTransferUsagePrefix)
+					if err := keeperutil.Save(st, b.N.App.AppCodec(), []byte(d), &skywaytypes.BridgeTransferUsage{Total: m.used, StartBlockHeight: start}); err != nil {
+						core.Harnessf("age window: %v", err)
+					}
+					m.start = start
+					b.Sim.Cfg.CrashPerMille = 0
+					r.Stats.Fault("usage_window_aged")
+					r.Trace.Event("age-window", "%s start=%d (%d blocks ago, period %s)", d[len(d)-2:], start, off, m.period)
+				}
+			}
+		}
 		gov.Tick()
 		br := b.Block()
+		b.Sim.Cfg.CrashPerMille = savedCrash
 		if b.Aborted {
 			break
 		}
